@@ -1,5 +1,6 @@
 import GS.Model.Loader
 import GSProofs.Lemmas.LoaderInv
+import GSProofs.Lemmas.RequestorSteps
 /-!
 # C01 — Requestor only delivers and stores verified, selector-reachable data
 
@@ -270,5 +271,161 @@ example :
 theorem store_needs_wellKeyed :
     ∃ ops : List Op, ∃ t ∈ trace {} ops, ∃ r, result t.2.2.2 = some r ∧ r.write = some (1, 7) :=
   ⟨[Op.online true, .ingest [(1, .present)] [(1, 7)], .load 1 []], by decide⟩
+
+
+/-!
+## Part 2: the requestor (executor + response routing) over an arbitrary link tree
+
+`Requestor.exchange st lt u msgs` is one whole request: a fresh requestor with local store `st`
+traverses the link tree `lt` (any list of nodes with depths — realisable or not), and receives the
+messages `msgs` — **any** list: any metadata, statuses, block sets (keyed by hash), from the right
+or a wrong peer, for this or another request id.  The executor runs whenever it can (by
+`C02.kahn` the interleaving of ingest and load steps does not matter).
+-/
+open GS.Requestor
+
+/-- depth-first walk of a pre-order link tree with one availability answer per visited link:
+    `true` = the link is loaded and the walk descends, `false` = its subtree is skipped; the walk
+    stops when the answers run out (a prefix).  Returns the loaded nodes and the remaining cursor. -/
+def dfs : LT → List Bool → List LNode × LT
+  | t, [] => ([], t)
+  | [], _ :: _ => ([], [])
+  | n :: rest, true :: as => ((n :: (dfs rest as).1), (dfs rest as).2)
+  | n :: rest, false :: as => dfs (rest.dropWhile (fun m => m.depth > n.depth)) as
+termination_by _ as => as.length
+
+/-- the loads answered with data, as (link, path), in order -/
+def blocksOf : List Ev → List (Cid × Path)
+  | [] => []
+  | .block c p _ _ :: rest => (c, p) :: blocksOf rest
+  | _ :: rest => blocksOf rest
+
+theorem blocksOf_append (a b : List Ev) : blocksOf (a ++ b) = blocksOf a ++ blocksOf b := by
+  induction a with
+  | nil => rfl
+  | cons e rest ih => cases e <;> simp [blocksOf, ih]
+
+theorem steps_dfs {t t' : LT} {evs : List Ev} (h : Steps t evs t') :
+    ∃ answers, (dfs t answers).2 = t' ∧
+      blocksOf evs = (dfs t answers).1.map (fun n => (n.cid, n.path)) := by
+  induction h with
+  | done t => exact ⟨[], by simp [dfs], by simp [dfs, blocksOf]⟩
+  | ctl ev hc _ ih =>
+    obtain ⟨as, h1, h2⟩ := ih
+    refine ⟨as, h1, ?_⟩
+    cases ev <;> simp_all [blocksOf, Ev.isCtl]
+  | data n w l i _ ih =>
+    obtain ⟨as, h1, h2⟩ := ih
+    refine ⟨true :: as, by simp [dfs, h1], ?_⟩
+    cases w <;> simp [blocksOf, dfs, h2]
+  | skip n _ ih =>
+    obtain ⟨as, h1, h2⟩ := ih
+    exact ⟨false :: as, by simp [dfs, h1], by simp [blocksOf, dfs, h2]⟩
+
+theorem steps_writes {t t' : LT} {evs : List Ev} (h : Steps t evs t') :
+    ∀ c b, Ev.write c b ∈ evs →
+      b = c ∧ ∃ pre post p l i, evs = pre ++ Ev.write c b :: Ev.block c p l i :: post ∧
+        ∃ n ∈ t, n.cid = c ∧ n.path = p := by
+  induction h with
+  | done t => intro c b hm; simp at hm
+  | ctl ev hc _ ih =>
+    intro c b hm
+    simp only [List.mem_cons] at hm
+    rcases hm with rfl | hm
+    · simp [Ev.isCtl] at hc
+    · obtain ⟨hb, pre, post, p, l, i, he, hn⟩ := ih c b hm
+      exact ⟨hb, ev :: pre, post, p, l, i, by simp [he], hn⟩
+  | @data rest t' evs n w l i _ ih =>
+    intro c b hm
+    cases w with
+    | true =>
+      simp only [if_true, List.cons_append, List.nil_append, List.mem_cons] at hm
+      rcases hm with hm | hm | hm | hm
+      · cases hm
+        exact ⟨rfl, [], Ev.prog n.vData :: evs, n.path, l, i, by simp, n, List.mem_cons_self .., rfl, rfl⟩
+      · cases hm
+      · cases hm
+      · obtain ⟨hb, pre, post, p, l', i', he, m, hmem, hmc⟩ := ih c b hm
+        exact ⟨hb, Ev.write n.cid n.cid :: Ev.block n.cid n.path l i :: Ev.prog n.vData :: pre, post, p, l', i',
+          by simp [he], m, List.mem_cons_of_mem _ hmem, hmc⟩
+    | false =>
+      simp only [Bool.false_eq_true, if_false, List.nil_append, List.mem_cons] at hm
+      rcases hm with hm | hm | hm
+      · cases hm
+      · cases hm
+      · obtain ⟨hb, pre, post, p, l', i', he, m, hmem, hmc⟩ := ih c b hm
+        exact ⟨hb, Ev.block n.cid n.path l i :: Ev.prog n.vData :: pre, post, p, l', i',
+          by simp [he], m, List.mem_cons_of_mem _ hmem, hmc⟩
+  | @skip rest t' evs n _ ih =>
+    intro c b hm
+    simp only [List.mem_cons] at hm
+    rcases hm with hm | hm | hm
+    · cases hm
+    · cases hm
+    · obtain ⟨hb, pre, post, p, l', i', he, m, hmem, hmc⟩ := ih c b hm
+      refine ⟨hb, Ev.err (.load (.missing n.cid n.path)) :: Ev.prog n.vSkip :: pre, post, p, l', i',
+        by simp [he], m, ?_, hmc⟩
+      exact List.mem_cons_of_mem _ (List.Sublist.mem hmem (List.dropWhile_sublist _))
+
+/-- **C01 (requestor): the event stream is a depth-first walk.**  For every link tree, honest local
+    store, user skip value and every list of hash-keyed messages, what the requestor does — blocks
+    written, loads answered with data (block hook), nodes handed to the caller, missing-block
+    errors — is a walk of the link tree: deliver the node under the cursor (optionally after writing
+    that node's block with that node's content), or skip its subtree with a missing-block error
+    naming it, or a control event. -/
+theorem exchange_walk (st : List (Cid × Blk)) (hst : HonestStore st) (lt : LT) (u : Nat)
+    (msgs : List Msg) (hwk : ∀ m ∈ msgs, m.wk) :
+    Steps lt (exchange st lt u msgs).2 (exchange st lt u msgs).1.todo :=
+  exchange_steps st hst lt u msgs hwk
+
+/-- **C01.store_sound (requestor).**  Every block the requestor writes is the content of the link it
+    is written under (`b = c`), and that link is the link the traversal is requesting at that
+    moment: the write is immediately followed by the delivery (block hook) of that very link at its
+    path, a node of the link tree (reached by the walk of `deliver_sound`, i.e. below delivered
+    nodes only). -/
+theorem req_store_sound (st : List (Cid × Blk)) (hst : HonestStore st) (lt : LT) (u : Nat)
+    (msgs : List Msg) (hwk : ∀ m ∈ msgs, m.wk) :
+    ∀ c b, Ev.write c b ∈ (exchange st lt u msgs).2 →
+      b = c ∧ ∃ pre post p l i,
+        (exchange st lt u msgs).2 = pre ++ Ev.write c b :: Ev.block c p l i :: post ∧
+        ∃ n ∈ lt, n.cid = c ∧ n.path = p :=
+  steps_writes (exchange_steps st hst lt u msgs hwk)
+
+/-- **C01.deliver_sound (requestor).**  The sequence of loads answered with data is the sequence
+    of loaded nodes of a depth-first walk of the link tree under SOME availability answers (one per
+    visited link), possibly cut short: the traversal only ever descends below links it loaded, in
+    traversal order, whatever the responder sent. -/
+theorem req_deliver_sound (st : List (Cid × Blk)) (hst : HonestStore st) (lt : LT) (u : Nat)
+    (msgs : List Msg) (hwk : ∀ m ∈ msgs, m.wk) :
+    ∃ answers, blocksOf (exchange st lt u msgs).2 =
+      (dfs lt answers).1.map (fun n => (n.cid, n.path)) := by
+  obtain ⟨as, _, h⟩ := steps_dfs (exchange_steps st hst lt u msgs hwk)
+  exact ⟨as, h⟩
+
+
+/-- **Peer filter** (`filterResponsesForPeer`): a response that comes from another peer, or carries
+    another request id, changes nothing and produces no event. -/
+theorem foreign_ignored (s : Requestor.State) (f k : Bool) (status : Nat) (md : List (Cid × Action))
+    (bl : List (Cid × Blk)) (h : f = false ∨ k = false) : message s f k status md bl = (s, []) := by
+  unfold message
+  rcases h with rfl | rfl <;> simp
+
+/-- non-vacuity: an exchange in which the requestor holds the root, fetches one block from the
+    responder (write + delivery) and is told that another one is missing -/
+example :
+    let lt : LT := [⟨9, [], 0, 2, 0⟩, ⟨2, [0], 1, 1, 1⟩, ⟨3, [1], 1, 1, 0⟩]
+    let msgs : List Msg := [⟨true, true, 21, [(9, .present), (2, .present), (3, .missing)], [(2, 2)]⟩]
+    (exchange [(9, 9)] lt 0 msgs).2 =
+      [.block 9 [] true 1, .prog 2, .sentNew 1, .write 2 2, .block 2 [0] false 2, .prog 1,
+       .err (.load (.missing 3 [1])), .prog 0] := by decide
+
+/-- non-vacuity of the adversarial side: a forged stream (wrong link first) ends the request with
+    RemoteIncorrectResponseError and writes nothing -/
+example :
+    let lt : LT := [⟨9, [], 0, 2, 0⟩, ⟨2, [0], 1, 1, 1⟩]
+    let msgs : List Msg := [⟨true, true, 14, [(9, .present), (7, .present)], [(7, 7), (2, 2)]⟩]
+    (exchange [(9, 9)] lt 0 msgs).2 =
+      [.block 9 [] true 1, .prog 2, .sentNew 1, .err (.load (.incorrect 2 7 [0])), .sentCancel,
+       .err (.load (.incorrect 2 7 [0]))] := by decide
 
 end GS.C01
